@@ -1228,6 +1228,15 @@ impl Run {
 	}
 }
 
+/// `Difficulty::from_num` clamps to 1: the value 0 needs its own constructor to be in the catalogue
+fn diff_of(x: u64) -> Difficulty {
+	if x == 0 {
+		Difficulty::zero()
+	} else {
+		Difficulty::from_num(x)
+	}
+}
+
 fn be_read(s: &[u8]) -> u64 {
 	s.iter().fold(0u64, |a, x| (a << 8) | *x as u64)
 }
@@ -1390,7 +1399,7 @@ fn base_header(eb: u8, ps: usize, pat: usize) -> BlockHeader {
 		output_mmr_size: (1u64 << 33) + 7,
 		kernel_mmr_size: (1u64 << 31) + 3,
 		pow: ProofOfWork {
-			total_difficulty: Difficulty::from_num((1u64 << 40) + 99),
+			total_difficulty: diff_of((1u64 << 40) + 99),
 			secondary_scaling: 1856,
 			nonce: (1u64 << 50) + 5,
 			proof: Proof { edge_bits: eb, nonces: nonces(eb, ps, pat) },
@@ -1418,7 +1427,7 @@ fn header_variant(eb: u8, ps: usize, f: usize, k: usize) -> BlockHeader {
 		8 => h.total_kernel_offset = offset3(k),
 		9 => h.output_mmr_size = u(k),
 		10 => h.kernel_mmr_size = u(k),
-		11 => h.pow.total_difficulty = Difficulty::from_num(u(k)),
+		11 => h.pow.total_difficulty = diff_of(u(k)),
 		12 => h.pow.secondary_scaling = [0u32, 1856, u32::MAX][k],
 		_ => h.pow.nonce = u(k),
 	}
@@ -1712,11 +1721,11 @@ fn part_p2p(run: &mut Run) {
 	run.chain(ChainTypes::AutomatedTesting, true);
 	let u3 = [0u64, (1 << 33) + 5, u64::MAX];
 	for k in 0..3 {
-		run.item(true, || Tip { height: u3[k], last_block_h: hash3(k), prev_block_h: hash3(2 - k), total_difficulty: Difficulty::from_num(u3[(k + 1) % 3]) });
+		run.item(true, || Tip { height: u3[k], last_block_h: hash3(k), prev_block_h: hash3(2 - k), total_difficulty: diff_of(u3[(k + 1) % 3]) });
 		run.item(true, || CommitPos { pos: u3[k], height: u3[(k + 2) % 3] });
 		run.item(true, || BlockSums { utxo_sum: if k == 0 { Commitment::from_vec(vec![0; 33]) } else { commit("sum", k as u64) }, kernel_sum: if k == 2 { Commitment::from_vec(vec![0xff; 33]) } else { commit("ksum", k as u64) } });
-		run.item(true, || Ping { total_difficulty: Difficulty::from_num(u3[k]), height: u3[2 - k] });
-		run.item(true, || Pong { total_difficulty: Difficulty::from_num(u3[2 - k]), height: u3[k] });
+		run.item(true, || Ping { total_difficulty: diff_of(u3[k]), height: u3[2 - k] });
+		run.item(true, || Pong { total_difficulty: diff_of(u3[2 - k]), height: u3[k] });
 		run.item(true, || TxHashSetRequest { hash: hash3(k), height: u3[k] });
 		run.item(true, || TxHashSetArchive { hash: hash3(k), height: u3[k], bytes: u3[(k + 1) % 3] });
 		run.item(true, || SegmentRequest { block_hash: hash3(k), identifier: SegmentIdentifier { height: [0u8, 11, 255][k], idx: u3[k] } });
@@ -1753,12 +1762,12 @@ fn part_p2p(run: &mut Run) {
 						capabilities: *c,
 						nonce: u3[(i + k) % 3],
 						genesis: hash3(j),
-						total_difficulty: Difficulty::from_num(u3[(j + k) % 3]),
+						total_difficulty: diff_of(u3[(j + k) % 3]),
 						sender_addr: addr([1, 3, 2, 4][(i + j) % 4]),
 						receiver_addr: addr([3, 1, 5, 0][(i + k) % 4]),
 						user_agent: ua.to_string(),
 					});
-					run.item(true, || Shake { version: ProtocolVersion(*ver), capabilities: *c, genesis: hash3(k % 3), total_difficulty: Difficulty::from_num(u3[(i + j) % 3]), user_agent: ua.to_string() });
+					run.item(true, || Shake { version: ProtocolVersion(*ver), capabilities: *c, genesis: hash3(k % 3), total_difficulty: diff_of(u3[(i + j) % 3]), user_agent: ua.to_string() });
 				}
 			}
 		}
